@@ -13,7 +13,7 @@ import falcon.asgi  # noqa: E402
 from falcon.response import Response, ResponseOptions  # noqa: E402
 
 from engine.envmodels import make_environ, make_scope  # noqa: E402
-from engine.rt import fail  # noqa: E402
+from engine.rt import fail, pick  # noqa: E402
 from engine.driver import known_findings as _kf  # noqa: E402
 
 LISTED = set(_kf()[0].get('C09', {}))
@@ -244,6 +244,10 @@ def forwarded_case(asgi, shape, a, b, c, d, host_port):
     elif shape == 3:
         text = 'for=_%s;PROTO=%s , for="%s"' % (a, b, c)
         exp = [('_' + a, None, None, b.lower()), (c, None, None, None)]
+    elif shape == 5:
+        # quoted-string values with quoted-pairs, one ending in an escaped double quote
+        text = 'for="%s\\"";proto=%s, for="\\%s%s"' % (a, b, c, d)
+        exp = [(a + '"', None, None, b.lower()), (c + d, None, None, None)]
     else:
         text = 'host=%s; for=%s' % (a, b)
         exp = [(None, None, a, None), ] if False else [(b, None, a, None)]
@@ -464,9 +468,16 @@ def partitions(tier, seed):
                        ['0 <= n1 < 6 and 0 <= n2 < 6', 'len(v1) <= %d and len(v2) <= 1' % n1],
                        'cookie_case(%d, n1, v1, n2, v2, two, quoted)' % asgi, 250,
                        'Cookie strings of 1-2 pairs: names from a menu incl. duplicates, values of free cookie-octets, optionally quoted'))
+        B.append(_part('forwarded_%s_quotedpair' % tag, 'ia: int, ib: int, ic: int, host_port: bool',
+                       ['0 <= ia <= 2 and 0 <= ib <= 1 and 0 <= ic <= 2'],
+                       "forwarded_case(%d, 5, ('a', '_x', '1.2')[pick(ia, 0, 2)], ('http', 'HTTPS')[pick(ib, 0, 1)], ('c', '', '[')[pick(ic, 0, 2)], 'd', "
+                       "bool(pick(int(host_port), 0, 1)))" % asgi, 100,
+                       'Forwarded elements whose values are quoted-strings with quoted-pairs (one ending in an escaped double quote): tokens '
+                       'from small menus (finite table chosen by the solver; the regex over symbolic quoted strings does not complete a path)'))
         for shape in range(5):
             B.append(_part('forwarded_%s_shape%d' % (tag, shape), 'a: str, b: str, c: str, d: str, host_port: bool',
-                           ['len(a) == 1 and len(b) == 1 and len(c) == 1 and len(d) == 1'] if q else ['len(a) <= 2 and len(b) <= 1 and len(c) <= 1 and len(d) <= 1'],
+                           (['len(a) == 1 and len(b) == 1 and len(c) == 1 and len(d) == 1'] if q else ['len(a) <= 2 and len(b) <= 1 and len(c) <= 1 and len(d) <= 1']) +
+                           [],
                            'forwarded_case(%d, %d, a, b, c, d, host_port)' % (asgi, shape), 250,
                            'Forwarded header shape #%d with symbolic tokens: elements, forwarded_host/scheme/uri/prefix (fallback to the Host '
                            'field incl. an explicit port), access_route' % shape))
